@@ -41,6 +41,13 @@ class OpSpec:
             self.k1 = "q" if sibling_of.k1 == "u" else "u"
             self.s2 = self.k2 = None
             r = None
+        elif sibling_of is not None and sibling_of.s1 is None:
+            # number / x once more with another unit of x's type
+            self.op, self.s1, self.k1 = "/", None, "n"
+            t2 = w.units[sibling_of.s2].tname
+            self.s2 = rng.choice([u.sym for u in w.units_of(t2)])
+            self.k2 = sibling_of.k2
+            r = None
         elif sibling_of is not None:
             # same operator and same two TYPES, other units: a result cached
             # per type pair instead of per unit pair would be wrong here
@@ -59,6 +66,13 @@ class OpSpec:
             self.k1 = rng.choice("qu")
             self.n = rng.choice([-2, -1, 2, 3])
             self.s2 = self.k2 = None
+        elif r < 0.27:
+            # number / unit and number / quantity: the reciprocal path, which
+            # has no cache of its own
+            self.op = "/"
+            self.s1 = None
+            self.s2 = rng.choice(syms)
+            self.k1, self.k2 = "n", rng.choice("qu")
         else:
             self.op = rng.choice("*/")
             self.s1, self.s2 = rng.choice(syms), rng.choice(syms)
@@ -69,13 +83,16 @@ class OpSpec:
         self.e2 = enc_amount(rng, self.x2, ("D", "F"))[0]
 
     def needs(self):
-        return {self.s1} | ({self.s2} if self.s2 else set())
+        return ({self.s1} if self.s1 else set()) | \
+            ({self.s2} if self.s2 else set())
 
     def operand(self, w, which, swap=False):
         s, k, x, e = ((self.s1, self.k1, self.x1, self.e1) if which == 1
                       else (self.s2, self.k2, self.x2, self.e2))
         if k == "u":
             return U(s), ("u", s)
+        if k == "n":
+            return e, ("n", x)
         return Q(e, s), ("q", stored(w, x, s), s)
 
     def build(self, w, swap=False):
@@ -162,7 +179,7 @@ def schedule_program(rng, plan, ops, sched):
         # declare a more direct result unit for some operations, re-evaluate
         added = 0
         for o in ops:
-            if o.op == "**" or added >= 4:
+            if o.op == "**" or added >= 4 or o.s1 is None:
                 continue
             u1, u2 = w.units[o.s1], w.units[o.s2]
             _, pred, _, _ = o.build(w)
@@ -193,7 +210,7 @@ def schedule_program(rng, plan, ops, sched):
         # there, now HKD/kg is declared); the operation must not move to it
         sib = 0
         for o in ops:
-            if o.op == "**" or sib >= 4:
+            if o.op == "**" or sib >= 4 or o.s1 is None:
                 continue
             _, pred, _, _ = o.build(w)
             if pred["kind"] != "qty-noref":
